@@ -132,6 +132,13 @@ func Run(file string, seed int64, conc int) (*Report, error) {
 	return rep, sc.Err()
 }
 
+var held struct {
+	e   *eventlogger.Event
+	key string
+	doc []byte
+	vec interface{}
+}
+
 func runVec(rep *Report, v *Vec, rng *rand.Rand, fresh map[string]bool) {
 	rep.Runs++
 	ff := &cloudevents.FormatterFilter{}
@@ -208,6 +215,14 @@ func runVec(rep *Report, v *Vec, rng *rand.Rand, fresh map[string]bool) {
 	created := time.Date(2023, 4, 5, 6, 7, 8, rng.Intn(1e9), time.UTC)
 	e := &eventlogger.Event{Type: eventlogger.EventType(typ), CreatedAt: created, Payload: payload, Formatted: map[string][]byte{}}
 	out, err := ff.Process(context.Background(), e)
+	func() {
+		if held.e != nil {
+			if cur, ok := held.e.Format(held.key); !ok || !bytes.Equal(cur, held.doc) {
+				rep.mm(Mismatch{What: "the document stored for an earlier event changed when a later event was formatted", Vector: held.vec, Expected: string(held.doc), Observed: string(cur)})
+			}
+			held.e = nil
+		}
+	}()
 	got := ""
 	switch {
 	case err != nil:
@@ -239,6 +254,7 @@ func runVec(rep *Report, v *Vec, rng *rand.Rand, fresh map[string]bool) {
 		rep.mm(Mismatch{What: "no document stored under the configured format", Vector: v.V, Expected: v.Key, Observed: "absent"})
 		return
 	}
+	held.e, held.key, held.doc, held.vec = e, v.Key, append([]byte{}, doc...), v.V
 	var ce cloudevents.Event
 	var generic map[string]json.RawMessage
 	if json.Unmarshal(doc, &ce) != nil || json.Unmarshal(doc, &generic) != nil {
